@@ -74,6 +74,13 @@ func (c *simCache) GetMany(ctx context.Context, keys []string) (map[string]cachi
 	now := time.Now()
 	for _, k := range keys {
 		if en, ok := c.m[k]; ok && en.expires.After(now) {
+			if c.faults && c.r.F.Prob(0.03) {
+				// the Cache interface allows an entry without bytes (value evicted between the index
+				// lookup and the read, a failed decode mapped to an empty item): it is a miss
+				c.r.Fault("cache_hollow_entry")
+				out[k] = caching.Item{Key: k, TTL: en.expires.Sub(now)}
+				continue
+			}
 			out[k] = caching.Item{Key: k, Value: en.value, TTL: en.expires.Sub(now)}
 		}
 	}
